@@ -8,14 +8,70 @@ import Verif.Model.Metered
 * `depth <configured> <D> [<shape>]`: `f(D)` nests `D + 1` calls below the entry point (as a function,
   method, closure, mutually recursive pair, or a closure inside a transaction's prepare); the model
   (`interpNested` / `vmNested`, theorems `depth`, `depth_engines_agree`) says it succeeds in both engines
-  iff `D + 1 ≤ limit`; each engine is compared with that. -/
+  iff `D + 1 ≤ limit`; each engine is compared with that.  The shapes `sinit`, `rinit`, `rnest`, `initm`,
+  `rinitev` recurse through composite initializers (a constructor call is one invocation in both engines).
+  `rinitev` destroys a resource with a `ResourceDestroyed` event at every level: at `D + 1 = limit` the VM's two
+  frames for the event (`destroyEvVM`) exceed the limit — class `vm-destroy-event-counts-call-frames`.
+* `seq <configured> <K> <form> <base>`: `K` sequential invocations of one form, `base` invocations below
+  the entry point; the spec (theorem `sequential_calls_do_not_accumulate`): both engines succeed iff
+  `base + 1 ≤ limit`, whatever `K` is (forms that invoke nothing — optional chaining on nil — iff
+  `base ≤ limit`); the model (`interpSeq` / `vmSeq`) is compared as well. -/
 open Verif.Proto Verif.Model.Metered
 
 def isOk (o : String) : Bool := o == "ok"
 def isDepthErr (o : String) : Bool := o == "err:user:interpreter.CallStackLimitExceededError"
 
+/-- kind of a `seq` form (mirrors `bdSeqForms` of the harness) -/
+def seqKind (form : String) : Option String :=
+  if ["fun", "method", "ref", "closure", "boundptr", "funptr", "cond", "iface", "ctor", "rctor"].contains form then some "cadence"
+  else if ["optsome", "optref", "optres", "optvoid"].contains form then some "opt"
+  else if form == "optnil" then some "nil"
+  else if ["log", "tostring", "append", "conv"].contains form then some "native"
+  else if form == "rctorev" then some "destroyev"
+  else none
+
+/-- what one iteration contributes to each engine's depth trace -/
+def seqIter (kind : String) (vm : Bool) : List Ev :=
+  if kind == "nil" then seqUncounted
+  else if kind == "native" then (if vm then seqUncounted else seqCounted)
+  else if kind == "destroyev" then seqCounted ++ (if vm then destroyEvVM else destroyEvInterp)
+  else seqCounted
+
+def parseObs (go : String) : Option (String × String) :=
+  -- (`slow` / `retried` markers of the harness carry no `=`)
+  match ((go.splitOn " ").filter (fun w => w.contains '=')).map (fun w => (w.splitOn "=")) with
+  | [["interp", oi], ["vm", ov]] => some (oi, ov)
+  | _ => none
+
 def judge (op : List String) (go : String) : Verdict :=
   match op with
+  | ["seq", cfg, k, form, base] =>
+    match cfg.toNat?, k.toNat?, base.toNat?, seqKind form with
+    | some configured, some kk, some b, some kind =>
+      let eff := interpEffectiveLimit configured
+      let want : Bool := if kind == "nil" || kk == 0 then decide (b ≤ eff) else decide (b + 1 ≤ eff)   -- the spec
+      let mi := (interpSeq configured b kk (seqIter kind false)).isSome
+      let mv := (vmSeq configured b kk (seqIter kind true)).isSome
+      let tags := [s!"configured={configured}", s!"form={form}", s!"kind={kind}",
+                   if b == 0 then "base=0" else if b + 1 == eff then "base=limit-1" else if b == eff then "base=limit" else "base=other",
+                   if want then "within-limit" else "beyond-limit", if kk ≥ eff then "!nt-k>=limit" else "!nt"]
+      if kind == "native" && !want then .skip "native-call-beyond-limit (C34 call-depth-counts-argument-nesting)"
+      else match parseObs go with
+      | some (oi, ov) =>
+        let good (o : String) : Bool := if want then isOk o else isDepthErr o
+        let req := s!"{kk} sequential {form} invocations at depth {b} under limit {eff}: {if want then "ok" else "CallStackLimitExceededError"} in both engines"
+        if !(good oi) then
+          .violation (if want && isDepthErr oi then "sequential-calls-accumulate-depth" else "interp-depth-limit-wrong") req tags
+        else if !(good ov) then
+          if kind == "destroyev" && want && isDepthErr ov && !mv then
+            .violation "vm-destroy-event-counts-call-frames" req tags
+          else .violation (if want && isDepthErr ov then "sequential-calls-accumulate-depth" else "engines-disagree-on-depth") req tags
+        else if mi != want || mv != want then .modelDiff s!"model: interp {mi} vm {mv}" tags
+        else .ok tags
+      | none =>
+        if go == "hang" || go.startsWith "crash:" then .violation "depth-crash-or-hang" "sequential calls end normally or with the call-depth error, never a crash" tags
+        else .skip "bad-observation"
+    | _, _, _, _ => .skip "bad-seq-op"
   | "depth" :: cfg :: d :: shape =>
     match cfg.toNat?, d.toNat?, decide (shape.length ≤ 1) with
     | some configured, some dd, true =>
@@ -25,16 +81,20 @@ def judge (op : List String) (go : String) : Verdict :=
       let wantVM := (vmNested configured n).isSome             -- (= want: depth_engines_agree)
       let tags := [s!"configured={configured}", s!"shape={shape.headD "fun"}", if want then "within-limit" else "beyond-limit",
                    if n == eff || n == eff + 1 then "!nt-boundary" else "!nt"]
-      -- (`slow` / `retried` markers of the harness carry no `=`)
-      match ((go.splitOn " ").filter (fun w => w.contains '=')).map (fun w => (w.splitOn "=")) with
-      | [["interp", oi], ["vm", ov]] =>
+      -- `rinitev`: the level `dd` deep destroys a resource with a ResourceDestroyed event (when dd ≥ 1)
+      let evVM : Bool := shape.headD "fun" == "rinitev" && dd ≥ 1
+      let wantVM := wantVM && (!evVM || (vmSeq configured dd 1 destroyEvVM).isSome)
+      match parseObs go with
+      | some (oi, ov) =>
         let good (o : String) : Bool := if want then isOk o else isDepthErr o
         if !(good oi) then
           .violation "interp-depth-limit-wrong" s!"recursion {n} deep under limit {eff}: {if want then "ok" else "CallStackLimitExceededError"}" tags
-        else if wantVM != want then .modelDiff "the model's engines disagree" tags
-        else if good ov then .ok tags
+        else if good ov then
+          if wantVM != want then .modelDiff "the model's engines disagree" tags else .ok tags
+        else if evVM && want && !wantVM && isDepthErr ov then
+          .violation "vm-destroy-event-counts-call-frames" s!"recursion {n} deep under limit {eff} destroying resources with a ResourceDestroyed event: ok in both engines" tags
         else .violation "engines-disagree-on-depth" "the same call-depth behaviour in both engines" tags
-      | _ =>
+      | none =>
         if go == "hang" || go.startsWith "crash:" then .violation "depth-crash-or-hang" "call-depth error, never a crash" tags
         else .skip "bad-observation"
     | _, _, _ => .skip "bad-depth-op"
